@@ -3,6 +3,7 @@
 `schemas(draft)` gives *well-meant* reference-free schemas (keyword values of the
 shapes the draft prescribes); `liberal(draft)` also draws degenerate / odd
 values and arbitrary JSON for keyword values (for C03 / C11)."""
+import copy
 import functools
 
 from hypothesis import strategies as st
@@ -222,14 +223,42 @@ def widen(s, pick, d=7):
     return s
 
 
+SINGLE_MEMBER = [{"enum": [1, "a"]}, {"enum": [0]}, {"enum": [True]}, {"enum": [[1], {"a": 0}]}, {"type": "integer"}, {"enum": [1.0, False]},
+                 {"type": "number"}, {"enum": [None, 0.0]}]
+
+
+def verdict_only(s, pick, d):
+    """A one-keyword subschema put where only its verdict is asked for (not / contains / if / disallow / a second
+    oneOf alternative): shortcuts for "trivial" subschemas live there."""
+    if not isinstance(s, dict):
+        return s
+    s = dict(s)
+    leaf = copy.deepcopy(SINGLE_MEMBER[pick % len(SINGLE_MEMBER)])
+    where = (["not", "oneOf"] if d >= 4 else ["disallow"]) + (["contains", "if"] if d >= 6 else []) + (["if"] if d >= 7 else [])
+    k = where[(pick // len(SINGLE_MEMBER)) % len(where)]
+    if k == "oneOf":
+        s[k] = [{"type": "string"}, leaf, copy.deepcopy(SINGLE_MEMBER[(pick + 3) % len(SINGLE_MEMBER)])]
+    elif k == "disallow":
+        s[k] = [leaf]
+    elif k == "if":
+        if d < 7:
+            return s
+        s["if"] = leaf
+        s.setdefault("then", {"maxLength": 0, "maximum": -5, "maxItems": 0})
+    else:
+        s[k] = leaf
+    return s
+
+
 @functools.lru_cache(maxsize=None)
 def root_schemas(d, max_leaves=8, kwfun=keyword_strategies):
     """Schemas whose root is an object with at least one keyword (most of the time); one in six has one keyword
     widened (see widen)."""
     sub = schemas(d, max_leaves, kwfun)
     plain = st.one_of(schema_object(d, sub, kwfun), schema_object(d, sub, kwfun), sub)
-    return st.one_of(plain, plain, plain, plain, plain,
-                     st.tuples(plain, st.integers(0, 1000)).map(lambda t: widen(t[0], t[1], d)))
+    return st.one_of(plain, plain, plain, plain, plain, plain,
+                     st.tuples(plain, st.integers(0, 1000)).map(lambda t: widen(t[0], t[1], d)),
+                     st.tuples(plain, st.integers(0, 1000)).map(lambda t: verdict_only(t[0], t[1], d)))
 
 
 # ---- liberal flavour (C03 / C11) ----------------------------------------------------------
